@@ -68,8 +68,10 @@ class Rely:
 
 
 class Extern:
-    def __init__(self, qual, result=None, pure=False, assume=(), note='', requires=None, always=False, params=None):
+    def __init__(self, qual, result=None, pure=False, assume=(), note='', requires=None, always=False, params=None,
+                 even_self=False):
         self.qual, self.result, self.pure, self.assume, self.note = qual, result, pure, list(assume), note
+        self.even_self = even_self           # also calls on the object under verification are external (overridable hook)
         self.requires = _named(requires)     # proved at every call site (obligation kind call_pre)
         self.always = always                 # treat as external even when the receiver's class is known/final
         self.params = params or []           # parameter names (to evaluate `requires` over the actual arguments)
@@ -178,8 +180,9 @@ class Specs:
     def rely(self, cls, protect, before=None, after=None, note=''):
         self.relies[cls] = Rely(cls, protect, before, after, note)
 
-    def extern(self, qual, result=None, pure=False, assume=(), note='', requires=None, always=False, params=None):
-        self.externs[qual] = Extern(qual, result, pure, assume, note, requires, always, params)
+    def extern(self, qual, result=None, pure=False, assume=(), note='', requires=None, always=False, params=None,
+               even_self=False):
+        self.externs[qual] = Extern(qual, result, pure, assume, note, requires, always, params, even_self)
 
     def specfn(self, name, params, text):
         self.specfns[name] = (params, text)
@@ -309,6 +312,8 @@ class Specs:
         is_self = ex.task_self is not None and recv.t.eq(ex.task_self.t)
         d = self.externs.get(info.qualname)
         if d is not None and d.always and not is_self and ex.task_cls != info.cls:
+            return 'extern'
+        if d is not None and d.even_self:
             return 'extern'
         if c is not None and c.modular and not (is_self and info.qualname in self.inline_always):
             return 'contract'
